@@ -199,6 +199,21 @@ func gen(rng *h.Rng, tier string, emit func(string)) {
 	for rep := 0; rep < 20*mul; rep++ { // nil items interspersed (AppendOne ignores them)
 		line("hist-nil", "hist", "k", items(rng, rng.Intn(40), 3))
 	}
+	for rep := 0; rep < 30*mul; rep++ { // all-zero hashes are ordinary items (e.g. the root of an empty output list), not holes
+		n := 1 + rng.Intn(24)
+		s := make([]string, n)
+		for i := range s {
+			if rng.Intn(3) == 0 {
+				s[i] = strings.Repeat("00", 32)
+			} else {
+				s[i] = randHash(rng)
+			}
+		}
+		if rep%3 == 0 {
+			s[0] = strings.Repeat("00", 32)
+		}
+		line("hist-zero-hash", "hist", []string{"k", "b"}[rep%2], strings.Join(s, " "))
+	}
 	for rep := 0; rep < 20*mul; rep++ { // repeated equal items: position must still matter
 		x := randHash(rng)
 		n := rng.Intn(40)
